@@ -183,6 +183,53 @@ def reset_library_globals() -> None:
     STATE.frozen = None
 
 
+class WallHang(KeyboardInterrupt):
+    """The library blocked the thread for real (e.g. on a threading.Lock): virtual time cannot help. Derives from
+    KeyboardInterrupt because asyncio re-raises only that (and SystemExit) out of callbacks / tasks."""
+
+
+class _Watchdog:
+    """Raise WallHang in the main thread if it sits on one line at one virtual instant on two successive alarms (2 s apart) after
+    `first` seconds, or if virtual time stands still for ~2 min of wall time. A slow machine alone never trips it."""
+
+    def __init__(self, first: float = 20.0) -> None:
+        self.first = first
+        self.armed = False
+
+    def __enter__(self) -> "_Watchdog":
+        import signal
+        import threading
+
+        if threading.current_thread() is not threading.main_thread() or signal.getsignal(signal.SIGALRM) not in (signal.SIG_DFL, signal.SIG_IGN, None):
+            return self  # someone else owns the alarm (e.g. the thin rig's own watchdog): leave it alone
+        st: dict = {"prev": None, "n": 0, "vt0": None}
+
+        def on_alarm(signum, frame):  # type: ignore[no-untyped-def]
+            lp = STATE.loop
+            vt = lp.time() if lp is not None else None
+            snap = (frame.f_code.co_filename, frame.f_lineno, vt) if frame is not None else None
+            st["n"] += 1
+            if st["vt0"] is None:
+                st["vt0"] = vt
+            if snap is not None and snap == st["prev"]:
+                raise WallHang()
+            if st["n"] > 60 and vt == st["vt0"]:
+                raise WallHang()
+            st["prev"] = snap
+
+        self._old = signal.signal(signal.SIGALRM, on_alarm)
+        signal.setitimer(signal.ITIMER_REAL, self.first, 2.0)
+        self.armed = True
+        return self
+
+    def __exit__(self, *a) -> None:  # type: ignore[no-untyped-def]
+        if self.armed:
+            import signal
+
+            signal.setitimer(signal.ITIMER_REAL, 0)
+            signal.signal(signal.SIGALRM, self._old)
+
+
 def run(coro_fn, *args, start: float = 0.0, reset: bool = True, **kwargs):  # type: ignore[no-untyped-def]
     """Run `await coro_fn(loop, *args, **kwargs)` to completion on a fresh VLoop; return (result, loop)."""
     install_dt()
@@ -194,7 +241,8 @@ def run(coro_fn, *args, start: float = 0.0, reset: bool = True, **kwargs):  # ty
         if reset:
             reset_library_globals()
             reset_duty_cycle()
-        result = loop.run_until_complete(coro_fn(loop, *args, **kwargs))
+        with _Watchdog():
+            result = loop.run_until_complete(coro_fn(loop, *args, **kwargs))
         return result, loop
     finally:
         try:
